@@ -45,6 +45,8 @@ type SimGetter struct {
 	nRange, nByH  int
 	nHead         int
 	HeadGate      chan struct{} // if set, Head calls wait on it (to overlap callers)
+	// MaxServed is the highest height any answered range request has delivered (from+len)
+	MaxServed uint64
 }
 
 func (g *SimGetter) rec(c GCall) {
@@ -243,6 +245,11 @@ func (g *SimGetter) GetRangeByHeight(ctx context.Context, from *H, to uint64) ([
 	out := g.Ch.Range(lo, hi)
 	c.N = len(out)
 	g.rec(c)
+	g.mu.Lock()
+	if top := from.Height() + uint64(len(out)); top > g.MaxServed {
+		g.MaxServed = top
+	}
+	g.mu.Unlock()
 	return out, nil
 }
 
